@@ -50,7 +50,7 @@ Do(e0) ==
     /\ mark' = IF e0.op = "bind_enter" THEN wire ELSE IF e0.op = "sync" THEN wire \o x.em ELSE mark
     \* independent bookkeeping of what must have reached the server so far (the '/sync' markers aside)
     /\ issued' = IF e0.op \in {"bind_enter", "sync"} THEN (IF st.inbind THEN issued \o held ELSE issued)
-                 ELSE IF e0.op = "bind_exit" THEN (IF e0.n[1] = 1 THEN issued ELSE issued \o held)
+                 ELSE IF e0.op = "bind_exit" THEN (IF e0.n[1] = 1 \/ st.poison THEN issued ELSE issued \o held)
                  ELSE IF st.inbind THEN issued
                  ELSE issued \o MsgsOf(solo.em)
 
@@ -106,7 +106,10 @@ BusCmd == \E h \in Handles({"cbus"}) :
     \/ Do(E("c_setn", h, "none", 0, "", IF st.obj[h].n = 1 THEN <<TF(4)>> ELSE <<TF(4), TI(1)>>, <<>>, "none", <<>>))
     \/ Do(E("c_fill", h, "none", 0, "", <<TF(4)>>, <<1>>, "none", <<>>))
     \/ Do(E("c_get", h, "none", 0, "", <<>>, <<>>, "none", <<>>))
-Sync == Do(E("sync", 0, "none", 0, "", <<>>, <<>>, "none", <<900 + calls>>))
+\* a command the encoder refuses, inside or outside a block (no sync afterwards in the same block: the flush inside
+\* sync() would raise in the body)
+Bad == \E h \in Handles({"synth", "group"}) : Do(E("bad", h, "none", 0, "", <<>>, <<0>>, "none", <<>>))
+Sync == ~st.poison /\ Do(E("sync", 0, "none", 0, "", <<>>, <<>>, "none", <<900 + calls>>))
 BindEnter == ~st.inbind /\ Do(E("bind_enter", 0, "none", 0, "", <<>>, <<>>, "none", <<>>))
 BindExit == st.inbind /\ Do(E("bind_exit", 0, "none", 0, "", <<>>, <<0>>, "none", <<>>))
 BindRaise == st.inbind /\ Do(E("bind_exit", 0, "none", 0, "", <<>>, <<1>>, "none", <<>>))
@@ -124,6 +127,7 @@ NextAll == (NewSynth /\ Mark("NewSynth"))
         \/ (NewBus /\ Mark("NewBus"))
         \/ (FreeBus /\ Mark("FreeBus"))
         \/ (BusCmd /\ Mark("BusCmd"))
+        \/ (Bad /\ Mark("Bad"))
         \/ (Sync /\ Mark("Sync"))
         \/ (BindEnter /\ Mark("BindEnter"))
         \/ (BindExit /\ Mark("BindExit"))
@@ -134,6 +138,7 @@ NextBind == \/ (Do(E("group", 0, "server", 0, "addToTail", <<>>, <<0>>, "none", 
             \/ (\E a \in Lowest(A!Legal(st.buf, BufPart(Cfg0), 1)) :
                    a # A!NONE /\ Do(E("buffer", 0, "none", 0, "", <<>>, <<8, 1>>, "func", <<a>>)) /\ Mark("NewBuffer"))
             \/ (\E h \in Handles({"buf"}) : Do(E("b_free", h, "none", 0, "", <<>>, <<>>, "none", <<>>)) /\ Mark("FreeBuffer"))
+            \/ (Bad /\ Mark("Bad"))
             \/ (Sync /\ Mark("Sync")) \/ (BindEnter /\ Mark("BindEnter")) \/ (BindExit /\ Mark("BindExit"))
             \/ (BindRaise /\ Mark("BindRaise"))
 Next == IF BindFocus THEN NextBind ELSE NextAll
@@ -151,6 +156,8 @@ BindAtomic ==
 \* markers is the sequence of commands that had to reach the server
 ExactlyOnceInOrder == SelectSeq(MsgsOf(wire), LAMBDA m : m.a # "/sync") = issued
 \* a '/sync' never overtakes a command issued before it
+\* whatever happened to a block (normal exit, exception in the body, flush refused), it is over afterwards
+BlockOver == last = "bind_exit" => ~st.inbind /\ ~st.poison /\ st.pending = <<>>
 SyncAfterEarlier == \A k \in 1 .. Len(wire) :
     (wire[k].m # <<>> /\ wire[k].m[1].a = "/sync") => Len(wire[k].m) = 1
 \* ids of live buffers / buses are exactly what the allocation spec holds; freed objects own nothing
